@@ -5,7 +5,7 @@ import vlib
 from . import ipgen
 from .ipcommon import MODEL_DEPS, TRUSTED_BASE, ASSUMPTIONS  # noqa
 
-COQ_DEPS = ["lib/PPCore.v", "lib/PPHost.v", "lib/Memo.v", "lib/MemoProofs.v"]
+COQ_DEPS = ["lib/PPCore.v", "lib/PPHost.v", "lib/Memo.v", "lib/MemoProofs.v", "lib/PyLib.v", "gen/G_fn_ip.v", "refine/RefIpCommon.v", "refine/RefDeanon.v"]
 RULE = ("phase 1: a first instance anonymizes structured addresses; phase 2: a NEW instance (cold memo) with the same salt/options undoes the images and "
         "re-anonymizes the results; plus warm mixed histories where every request is followed by the opposite request on its answer; small widths exhaustive; "
         "non-trivial = a cold undo of an image that differs from its original")
@@ -80,6 +80,14 @@ def run(ctx):
     warm0 += [ipgen.ip4_case(rng, dirs="ad") for _ in range(30 if q else 600)]
     warm0 += [ipgen.ip6_case(rng, dirs="ad") for _ in range(3 if q else 60)]
 
+    # the code GENERATED from the source (function-level translator) against the implementation, full outputs, small widths
+    gen_cases = [["gbase"] + c[1:] for c in warm0 if c[0] == "base"]
+    if ctx.model_ok:
+        gm, gi = vlib.run_model(gen_cases), vlib.run_impl(gen_cases)
+        ctx.corr_stats["generated_code"] = {"cases": len(gen_cases), "disagreements": sum(1 for a, b in zip(gm, gi) if a != b)}
+        for c, a, b in zip(gen_cases, gm, gi):
+            if a != b and len(ctx.disagreements) < 20:
+                ctx.disagreements.append({"case": c, "model": a[:300], "impl": b[:300], "label": "generated-code (anonymize/deanonymize translated from the source)"})
     cold_i, closed_i, raw_i, exp_i, nt = cold_phase(vlib.run_impl, fwd, ctx.seed)
     warm_i, wclosed_i, wraw_i = warm_phase(vlib.run_impl, warm0)
     if ctx.model_ok:
